@@ -22,6 +22,7 @@ REPLAYS = os.path.join(VERIF, "evidence", "replays")
 DRIVER_BIN = os.path.join(LEAN, ".lake", "build", "bin", "driver")
 ALLOWED_AXIOMS = {"propext", "Classical.choice", "Quot.sound"}
 GUARD = "NOSTR_RELAY_VERIF"
+MAX_LIMIT = 20
 
 
 def setup_paths():
@@ -37,6 +38,11 @@ def setup_paths():
     import logging
 
     logging.disable(logging.CRITICAL)
+    # a small max_limit so that limit semantics (C12) are reachable with small stores; must be set
+    # before nostr_relay.storage.* is imported (default arguments capture it at import time)
+    from nostr_relay.config import Config
+
+    Config.max_limit = MAX_LIMIT
 
 
 def seed_from_env(default=20260929):
